@@ -775,12 +775,12 @@ func (ck *checker) evaluate(s *Scenario, r Rendered, bs []*build) {
 			case sensitive && s.EarlySame && len(orders) < len(s.Orders):
 				// the base builds did not sample every order of an order-sensitive program: not comparable
 				c.Add("session_not_comparable", 1)
-			case !s.EarlySame && foreignInstances(differs, base):
+			case !s.EarlySame:
 				crash := ""
 				if obs := gjs.ClassifyNode(gjs.Node(differs.out, time.Minute, "", nil)); obs.End != "exit" {
 					crash = fmt.Sprintf("; the program built after the earlier command does not run: %s %s", obs.End, clip(obs.Msg, 120))
 				}
-				ck.report(s, r, g, []string{keySession}, fmt.Sprintf("%s [%s]: the output differs when another command that instantiates a generic declaration of a shared package was built earlier in the same session (model: dangling=%v)%s", s.Origin, gn, s.EarlyDang, crash), base[0], differs)
+				ck.report(s, r, g, []string{keySession}, fmt.Sprintf("%s [%s]: the output differs when another command that instantiates a generic declaration of a shared package was built earlier in the same session, as the model predicts (model: dangling=%v; instances of the earlier command in the later build's sets=%v)%s", s.Origin, gn, s.EarlyDang, foreignInstances(differs, base), crash), base[0], differs)
 			default:
 				ck.report(s, r, g, []string{keySessUnpred}, fmt.Sprintf("%s [%s]: the output differs after an earlier command in the same session where the model predicts no difference", s.Origin, gn), base[0], differs)
 			}
